@@ -2,7 +2,8 @@
 # selftest.sh [-j N] [id ...] : must-fail corpus. Applies every selftest/<id>/*.diff and seeded/<id>-*/patch.diff to a
 # scratch worktree of /repo in turn (seedtest.sh; /repo itself is never touched), runs the property's quick check
 # there and requires a VIOLATION line. Then the benign corpus (selftest_benign/<id>/*.diff) must stay quiet.
-# Developer tool, not a registered check. N jobs run side by side (default 4).
+# Developer tool, not a registered check. N jobs run side by side (default 4). SELFTEST_PROGRESS=<file> gets one line
+# per finished item as it completes.
 cd "$(dirname "$0")"
 jobs=4
 if [ "$1" = "-j" ]; then jobs=$2; shift 2; fi
@@ -11,10 +12,13 @@ one() {
   id=$1; p=$2; kind=$3
   out=$(./seedtest.sh "$id" "$PWD/$p" 2>&1)
   if [ "$kind" = mustfail ]; then
-    if echo "$out" | grep -q "^VIOLATION property=$id "; then echo "caught   $p"; else echo "MISSED   $p"; echo "$out" | tail -3; fi
+    if echo "$out" | grep -q "^VIOLATION property=$id "; then r="caught   $p"; else r="MISSED   $p"$'\n'"$(echo "$out" | tail -3)"; fi
   else
-    if echo "$out" | grep -q "^VIOLATION\|^ENGINE"; then echo "ALARM    $p"; echo "$out" | grep "^VIOLATION\|^ENGINE" | head -3; else echo "quiet    $p"; fi
+    if echo "$out" | grep -q "^VIOLATION\|^ENGINE"; then r="ALARM    $p"$'\n'"$(echo "$out" | grep "^VIOLATION\|^ENGINE" | head -3)"; else r="quiet    $p"; fi
   fi
+  echo "$r"
+  # progress file: one line per finished item in completion order (the sorted list is printed at the end)
+  if [ -n "${SELFTEST_PROGRESS:-}" ]; then echo "$r" | head -1 >> "$SELFTEST_PROGRESS"; fi
 }
 export -f one
 list=$(for id in $ids; do
